@@ -92,14 +92,19 @@ class RollingReduction(Expr):
             columns = [col for col in self.frame.columns if col in columns]
             if columns == self.frame.columns:
                 return
-            if self.groupby_kwargs is not None:
-                return type(parent)(
-                    type(self)(self.frame[columns], *self.operands[1:]),
-                    *parent.operands[1:],
-                )
-            if len(columns) == 1:
-                columns = columns[0]
-            return type(self)(self.frame[columns], *self.operands[1:])
+            if (
+                self.groupby_kwargs is None
+                and parent.ndim == 1
+                and columns == parent.columns
+            ):
+                # Selecting a single column as a Series
+                return type(self)(self.frame[columns[0]], *self.operands[1:])
+            # Otherwise keep the selection on top: it determines the order of the
+            # columns and whether the result is a Series or a DataFrame
+            return type(parent)(
+                type(self)(self.frame[columns], *self.operands[1:]),
+                *parent.operands[1:],
+            )
 
     @property
     def _is_blockwise_op(self):
